@@ -49,8 +49,12 @@ Profiles == { << Smp(sh[1], v[1], <<>>, <<>>), Smp(sh[2], v[2], <<>>, <<>>) >> :
 \* at line granularity an entry for "f, no line" coexists with the entries of f's lines
 LineZeroProfiles == { << Smp(<<LH, LF>>, v[1], <<>>, <<>>), Smp(<<LG, LF0>>, v[2], <<>>, <<>>) >> : v \in Vals }
                     \cup { << Smp(<<LH, LF, LF0>>, v[1], <<>>, <<>>), Smp(<<LF0, LG>>, v[2], <<>>, <<>>) >> : v \in Vals }
+\* a comparison against a small base (-diff_base labels the negated base samples): the report total is the base total only,
+\* so the entries shown add up to far more than the total
+DiffProfiles == { << Smp(<<LH, LG, LF>>, <<1, 10>>, <<>>, <<>>), Smp(<<LG, LF>>, <<0 - 1, 0 - 1>>, <<SLab("pprof::base", <<"true">>)>>, <<>>) >>,
+                  << Smp(<<LH, LF>>, <<2, 7>>, <<>>, <<>>), Smp(<<LH, LG, LF>>, <<0 - 1, 0 - 2>>, <<SLab("pprof::base", <<"true">>)>>, <<>>) >> }
 Cases == UNION { { [samples |-> pg[1], cfg |-> Cfg0(pg[2]), K |-> k] : k \in SUBSET AllEntries(pg[1], Cfg0(pg[2])) } :
-                   pg \in (Profiles \X Grans) \cup (LineZeroProfiles \X {"lines"}) }
+                   pg \in (Profiles \X Grans) \cup (LineZeroProfiles \X {"lines"}) \cup (DiffProfiles \X {"functions"}) }
 
 \* ------------------------------------------------------------- declarative
 Kept(c) == c.K
